@@ -8,6 +8,7 @@ from montepy.input_parser.read_parser import ReadParser
 from montepy.input_parser.tokens import CellLexer, SurfaceLexer, DataLexer
 from montepy.utilities import *
 import re
+from sly.lex import LexError
 
 
 class Jump:
@@ -235,6 +236,11 @@ class Input(ParsingNode):
             token.value = token.value.rstrip("\n")
             if token.value:
                 yield token
+        # the lexer does not know this character: an error of this input
+        except LexError as e:
+            raise ParsingError(
+                self, f"The input has a character that cannot be read: {e}", []
+            )
         self._lexer = None
 
     @make_prop_pointer("_lexer")
